@@ -262,67 +262,127 @@ Lemma wpow_2 : wpow 2 = 65536. Proof. reflexivity. Qed.
 Lemma wpow_4 : wpow 4 = 4294967296. Proof. reflexivity. Qed.
 
 Lemma char_ok_scalar cw c : char_ok cw c = true -> scalar_ok c = true /\ 0 <= c < wpow cw.
-Proof. unfold char_ok, scalar_ok, is_surrogate. lia. Qed.
+Proof. unfold char_ok, is_surr, scalar_ok, is_surrogate. lia. Qed.
 
 Lemma le_enc_1 c : 0 <= c < 256 -> le_enc 1 c = [c].
 Proof. intros H. cbn [le_enc]. f_equal. lia. Qed.
 
-(* one character on its documented width is what str.encode produces *)
-Lemma enc_char_spec e cw c :
-  char_width e = Some cw -> char_ok cw c = true -> enc_char e c = Some (spec_le cw c).
+Lemma Some_inj {A} (a b : A) : Some a = Some b -> a = b.
+Proof. congruence. Qed.
+
+Lemma char_width_size e cw : char_width e = Some cw -> enc_char_size e = Z.of_nat cw.
+Proof. destruct e; cbn; intros H; try discriminate; injection H as <-; reflexivity. Qed.
+
+(* one character on its documented width (a surrogate pair on 2-byte characters) is what str.encode produces *)
+Lemma enc_char_spec e cw c bs :
+  char_width e = Some cw -> spec_char cw c = Some bs -> enc_char e c = Some bs.
 Proof.
-  intros He Hc. apply char_ok_scalar in Hc as [Hs Hr]. rewrite spec_le_le_enc.
-  destruct e; cbn [char_width] in He; try discriminate; injection He as <-; cbn [enc_char].
-  - rewrite wpow_1 in Hr. replace ((0 <=? c) && (c <? 256)) with true by lia. now rewrite le_enc_1.
-  - rewrite wpow_2 in Hr. rewrite Hs. cbn [negb]. destruct (c <? 65536) eqn:E; [reflexivity|lia].
-  - now rewrite Hs.
+  intros He. unfold spec_char. destruct (char_ok cw c) eqn:Hc.
+  - intros H. apply Some_inj in H. subst bs. apply char_ok_scalar in Hc as [Hs Hr]. rewrite spec_le_le_enc.
+    destruct e; cbn [char_width] in He; try discriminate; injection He as <-; cbn [enc_char].
+    + rewrite wpow_1 in Hr. replace ((0 <=? c) && (c <? 256)) with true by lia. now rewrite le_enc_1.
+    + rewrite wpow_2 in Hr. rewrite Hs. cbn [negb]. destruct (c <? 65536) eqn:E; [reflexivity|lia].
+    + now rewrite Hs.
+  - destruct ((cw =? 2)%nat && (65536 <=? c) && (c <=? 1114111)) eqn:Hp; [|discriminate].
+    intros H. apply Some_inj in H. subst bs. apply andb_prop in Hp as [Hp H3]. apply andb_prop in Hp as [H1 H2].
+    apply Nat.eqb_eq in H1. subst cw. destruct e; cbn [char_width] in He; try discriminate. cbn [enc_char].
+    assert (Hs : scalar_ok c = true) by (unfold scalar_ok, is_surrogate; lia). rewrite Hs. cbn [negb].
+    destruct (c <? 65536) eqn:E; [lia|]. now rewrite !spec_le_le_enc.
 Qed.
 
 Lemma text_encode_spec e cw s bs :
   char_width e = Some cw -> spec_chars cw s = Some bs -> text_encode e s = Ok bs.
 Proof.
-  intros He. unfold spec_chars. destruct (forallb (char_ok cw) s) eqn:Hall; [|discriminate].
-  intros H. injection H as <-. induction s as [|c s IH]; [reflexivity|].
-  cbn [forallb] in Hall. apply andb_prop in Hall as [Hc Hs].
-  cbn [text_encode flat_map]. rewrite (enc_char_spec e cw c He Hc), (IH Hs). reflexivity.
+  intros He. revert bs. induction s as [|c s IH]; intros bs H; cbn [spec_chars] in H.
+  - injection H as <-. reflexivity.
+  - destruct (spec_char cw c) as [a|] eqn:Ha; [|discriminate]. destruct (spec_chars cw s) as [b|] eqn:Hb; [|discriminate].
+    injection H as <-. cbn [text_encode]. rewrite (enc_char_spec e cw c a He Ha), (IH b eq_refl). reflexivity.
 Qed.
 
-(* ASCII on one byte is also what UTF-8 produces *)
-Lemma text_encode_utf8_ascii s bs :
-  spec_chars 1 s = Some bs -> existsb (fun c => 128 <=? c) s = false -> text_encode Utf8 s = Ok bs.
+Lemma spec_char_ok cw c bs : spec_char cw c = Some bs -> bytes_ok bs = true.
 Proof.
-  unfold spec_chars. destruct (forallb (char_ok 1) s) eqn:Hall; [|discriminate].
-  intros H. injection H as <-. induction s as [|c s IH]; intros Hx; [reflexivity|].
-  cbn [forallb] in Hall. apply andb_prop in Hall as [Hc Hs].
-  cbn [existsb] in Hx. apply orb_false_elim in Hx as [Hc8 Hx].
-  apply char_ok_scalar in Hc as [Hsc Hr]. rewrite wpow_1 in Hr.
-  cbn [text_encode flat_map enc_char]. rewrite Hsc. cbn [negb].
-  destruct (c <? 128) eqn:E; [|lia]. rewrite (IH Hs Hx), spec_le_le_enc, le_enc_1 by lia. reflexivity.
+  unfold spec_char. destruct (char_ok cw c).
+  - intros H. apply Some_inj in H. subst bs. rewrite spec_le_le_enc. apply le_enc_ok.
+  - destruct ((cw =? 2)%nat && (65536 <=? c) && (c <=? 1114111)); [|discriminate].
+    intros H. apply Some_inj in H. subst bs. now rewrite bytes_ok_app, !spec_le_le_enc, !le_enc_ok.
+Qed.
+
+Lemma spec_chars_bytes_ok cw s bs : spec_chars cw s = Some bs -> bytes_ok bs = true.
+Proof.
+  revert bs. induction s as [|c s IH]; intros bs H; cbn [spec_chars] in H.
+  - injection H as <-. reflexivity.
+  - destruct (spec_char cw c) as [a|] eqn:Ha; [|discriminate]. destruct (spec_chars cw s) as [b|] eqn:Hb; [|discriminate].
+    injection H as <-. now rewrite bytes_ok_app, (spec_char_ok _ _ _ Ha), (IH b eq_refl).
 Qed.
 
 Lemma spec_chars_1 s bs : spec_chars 1 s = Some bs -> bs = s.
 Proof.
-  unfold spec_chars. destruct (forallb (char_ok 1) s) eqn:Hall; [|discriminate].
-  intros H. injection H as <-. induction s as [|c s IH]; [reflexivity|].
-  cbn [forallb] in Hall. apply andb_prop in Hall as [Hc Hs]. apply char_ok_scalar in Hc as [_ Hr]. rewrite wpow_1 in Hr.
-  cbn [flat_map]. rewrite spec_le_le_enc, le_enc_1 by lia. cbn [app]. f_equal. now apply IH.
+  revert bs. induction s as [|c s IH]; intros bs H; cbn [spec_chars] in H.
+  - injection H as <-. reflexivity.
+  - unfold spec_char in H. destruct (char_ok 1 c) eqn:Hc; [|discriminate H].
+    destruct (spec_chars 1 s) as [b|] eqn:Hb; [|discriminate]. apply Some_inj in H. subst bs.
+    apply char_ok_scalar in Hc as [_ Hr]. rewrite wpow_1 in Hr.
+    rewrite spec_le_le_enc, le_enc_1 by lia. cbn [app]. f_equal. now apply IH.
 Qed.
 
-Lemma spec_chars_length cw s bs : spec_chars cw s = Some bs -> length bs = (cw * length s)%nat.
-Proof.
-  unfold spec_chars. destruct (forallb (char_ok cw) s); [|discriminate]. intros H. injection H as <-.
-  induction s as [|c s IH]; [cbn; lia|]. cbn [flat_map length]. rewrite app_length, IH, spec_le_le_enc, le_enc_length. lia.
-Qed.
-
-(* Latin-1 decoding: every byte is a character *)
+(* ---- decoding: bytes.decode of the three fixed-unit encodings *)
 Lemma spec_chars_dec_latin1 d fuel :
   bytes_ok d = true -> (length d <= fuel)%nat -> spec_chars_dec 1 fuel d = Some d.
 Proof.
   revert fuel. induction d as [|b r IH]; intros fuel Hok Hf; [destruct fuel; reflexivity|].
   destruct fuel as [|f]; [cbn in Hf; lia|].
   rewrite bytes_ok_cons in Hok. apply andb_prop in Hok as [Hb Hr]. apply byte_ok_iff in Hb.
-  cbn [spec_chars_dec length firstn skipn]. cbn [Nat.ltb Nat.leb].
+  cbn [spec_chars_dec length firstn skipn]. cbn [Nat.ltb Nat.leb Nat.eqb andb].
   rewrite spec_le_val_le_dec. cbn [le_dec]. replace (b + 256 * 0) with b by lia.
-  assert (Hc : char_ok 1 b = true) by (unfold char_ok; rewrite wpow_1; lia).
+  assert (Hc : char_ok 1 b = true) by (unfold char_ok, is_surr; rewrite wpow_1; lia).
   rewrite Hc, IH by (try exact Hr; cbn in Hf; lia). reflexivity.
+Qed.
+
+Lemma spec_chars_dec_utf16 d fuel :
+  bytes_ok d = true -> spec_chars_dec 2 fuel d = utf16_decode fuel d.
+Proof.
+  revert d. induction fuel as [|f IH]; intros d Hok.
+  - destruct d; reflexivity.
+  - destruct d as [|l0 [|h0 r0]]; [reflexivity|reflexivity|].
+    rewrite !bytes_ok_cons in Hok. apply andb_prop in Hok as [Hl Hok]. apply andb_prop in Hok as [Hh Hr0].
+    apply byte_ok_iff in Hl, Hh.
+    cbn [spec_chars_dec utf16_decode length firstn skipn]. cbn [Nat.ltb Nat.leb Nat.eqb andb].
+    rewrite spec_le_val_le_dec. cbn [le_dec]. replace (l0 + 256 * (h0 + 256 * 0)) with (l0 + 256 * h0) by lia.
+    set (u := l0 + 256 * h0).
+    destruct ((55296 <=? u) && (u <=? 56319)) eqn:Ehi.
+    + destruct r0 as [|l1 [|h1 r1]]; [reflexivity|reflexivity|].
+      rewrite !bytes_ok_cons in Hr0. apply andb_prop in Hr0 as [Hl1 Hr0]. apply andb_prop in Hr0 as [Hh1 Hr1].
+      cbn [length Nat.ltb Nat.leb firstn skipn]. rewrite spec_le_val_le_dec. cbn [le_dec].
+      replace (l1 + 256 * (h1 + 256 * 0)) with (l1 + 256 * h1) by lia.
+      destruct ((56320 <=? l1 + 256 * h1) && (l1 + 256 * h1 <=? 57343)); [|reflexivity]. now rewrite IH.
+    + destruct ((56320 <=? u) && (u <=? 57343)) eqn:Elo.
+      * assert (Hc : char_ok 2 u = false) by (unfold char_ok, is_surr; lia). now rewrite Hc.
+      * assert (Hc : char_ok 2 u = true) by (unfold char_ok, is_surr; rewrite wpow_2; unfold u; lia).
+        rewrite Hc. now rewrite IH.
+Qed.
+
+Lemma spec_chars_dec_utf32 d fuel :
+  bytes_ok d = true -> spec_chars_dec 4 fuel d = utf32_decode fuel d.
+Proof.
+  revert d. induction fuel as [|f IH]; intros d Hok.
+  - destruct d; reflexivity.
+  - destruct d as [|b0 [|b1 [|b2 [|b3 r]]]]; try reflexivity.
+    assert (Hr : bytes_ok r = true) by (rewrite !bytes_ok_cons in Hok; repeat (apply andb_prop in Hok as [_ Hok]); exact Hok).
+    assert (Hd : bytes_ok [b0; b1; b2; b3] = true).
+    { rewrite !bytes_ok_cons in Hok |- *. repeat (apply andb_prop in Hok as [?H Hok]). now rewrite H, H0, H1, H2. }
+    cbn [spec_chars_dec utf32_decode length firstn skipn]. cbn [Nat.ltb Nat.leb Nat.eqb andb].
+    rewrite spec_le_val_le_dec. set (c := le_dec [b0; b1; b2; b3]).
+    pose proof (le_dec_range _ Hd) as Hc. fold c in Hc. change (pow256 (length [b0; b1; b2; b3])) with 4294967296 in Hc.
+    assert (Heq : char_ok 4 c = scalar_ok c) by (unfold char_ok, is_surr, scalar_ok, is_surrogate; rewrite wpow_4; lia).
+    rewrite Heq. destruct (scalar_ok c); [|reflexivity]. now rewrite IH.
+Qed.
+
+Lemma text_decode_spec e cw d :
+  char_width e = Some cw -> bytes_ok d = true ->
+  text_decode e d = match spec_chars_dec cw (length d) d with Some s => Ok s | None => Err (Foreign UnicodeError) end.
+Proof.
+  intros He Hok. destruct e; cbn [char_width] in He; try discriminate; injection He as <-; cbn [text_decode].
+  - now rewrite spec_chars_dec_latin1.
+  - now rewrite spec_chars_dec_utf16.
+  - now rewrite spec_chars_dec_utf32.
 Qed.
